@@ -28,15 +28,20 @@ INCLUDES = {
     # ... plus: a command the parser wrongly refuses gets no response at all (PARSERS); the handshake's own replies (C11.gate)
     # ... a binary row a decoder accepts has the right bitmap length and header (C07); "emits" includes the flush (C12)
     "C03": [("C09", ALL), PARSERS, ("C11", ["C11.gate"]), ("C07", ["C07.bitmap-arith", "C07.row-prefix"]),
-            ("C12", ["C12.clean-at-read", "C12.flush-is-complete"]), ("C06", ["C06.one-cell", "C06.row-boundary"])] + WIRE,   # and text rows made of well-formed cells
+            ("C12", ["C12.clean-at-read", "C12.flush-is-complete"]), ("C06", ["C06.one-cell", "C06.row-boundary"]),
+            ("C13", ["C13.err-on-packet-boundary"])] + WIRE,   # and text rows made of well-formed cells; a pending row is ended before its terminator
     # ... and the writer of a message ends it whatever the buffer looks like: a row that filled its last packet exactly still
     # needs its (empty) terminator, which only end_row -> end_packet sends (C13's rule on finish_inner ending a pending row)
-    "C04": [XPORT_W, ("C13", ["C13.err-on-packet-boundary"])],
+    # ... and a message whose writer failed (the error was deferred) is not framed and sent as if it were complete: the flush
+    # reports the deferred error before it ends the pending packet (C19.deferred-error; round 14, C04-C)
+    "C04": [XPORT_W, ("C13", ["C13.err-on-packet-boundary"]), ("C19", ["C19.deferred-error"])],
     "C05": [("C04", ALL), XPORT_W],
     # rows arrive unchanged only behind a correct resultset header and wire layer
-    "C06": [("C09", ALL)] + WIRE,
+    # ... and the last row, written cell by cell and left to Drop / finish, is ended as its own packet before the terminator is
+    # written (else the terminator's bytes are appended to the row: C13.err-on-packet-boundary; round 14, C06-C)
+    "C06": [("C09", ALL), ("C13", ["C13.err-on-packet-boundary"])] + WIRE,
     # C07 also: integer cells of a binary row (C15's exact-or-refused) — the row is "decoded to exactly the values written"
-    "C07": [("C09", ALL), ("C15", ["C15.exact-or-refused", "C15.completeness"])] + WIRE,
+    "C07": [("C09", ALL), ("C15", ["C15.exact-or-refused", "C15.completeness"]), ("C13", ["C13.err-on-packet-boundary"])] + WIRE,
     # parameters: type table (C16), long data (C17), statement registry (C10), command parsers, reassembly of the payload (C01)
     "C08": [("C16", ALL), ("C17", ALL), ("C10", ALL), PARSERS, ("C01", ALL)],
     "C09": WIRE,
@@ -50,10 +55,14 @@ INCLUDES = {
     "C11": [("C12", ["C12.flush-is-complete"]), ("C13", ["C13.err-layout"]), ("C01", ALL)] + WIRE,
     # "already been answered": every command's reply is complete (reply per command, list terminators) before the server waits again
     # ... including the terminator a dropped writer still owes (C03.drop-finalises / finalize-first)
-    "C12": [("C03", ["C03.reply-effects", "C03.drop-finalises", "C03.finalize-first"]), ("C09", ["C09.eof-policy", "C09.count-packet"]), XPORT_W],
+    # ... and a writer that could NOT finish its reply on drop hands the error to the next flush, which ends the connection instead of
+    # going back to wait with the command unanswered (C19.deferred-error; round 14, C12-C)
+    "C12": [("C03", ["C03.reply-effects", "C03.drop-finalises", "C03.finalize-first"]), ("C09", ["C09.eof-policy", "C09.count-packet"]), XPORT_W,
+            ("C19", ["C19.deferred-error"])],
     "C13": [("C12", ["C12.clean-at-read", "C12.flush-is-complete"])] + WIRE,   # "reaches the client": written AND flushed
     # a completion is attributed to its command only if every command gets exactly one response
-    "C14": [("C03", ["C03.reply-effects"]), ("C11", ["C11.gate"])] + WIRE,     # incl. the handshake: exactly one reply to the login
+    # ... a completion stored for an earlier resultset of the reply is written before whatever follows it (C03.finalize-first; round 14, C14-B)
+    "C14": [("C03", ["C03.reply-effects", "C03.finalize-first"]), ("C11", ["C11.gate"])] + WIRE,     # incl. the handshake: exactly one reply to the login
     # what the client decodes depends on the announced column (C09) and on where the value sits in the row (bitmap length, header)
     # ... and, in the text protocol, on the decimal text being the value's own `{}` rendering (C06.int-text: the integer part of C06.text-grammar)
     "C15": [("C09", ALL), ("C07", ["C07.bitmap-arith", "C07.row-prefix"]), ("C06", ["C06.int-text"])] + WIRE,   # a fixed-width integer behind a 16 MiB cell sits where the framing puts it
@@ -74,7 +83,12 @@ INCLUDES = {
     # the parameter iterator unwraps the value parser's result (a known finding): every input the value parser refuses is a crash,
     # so the set it accepts is part of this property until that finding is repaired
     # ... and the parameter count the iterator slices by is the registry's, which must be the one announced (C10)
-    "C20": [("C08", ["C08.value-layouts"]), ("C10", ["C10.registry-ownership", "C10.fresh-on-prepare"])],
+    # ... and it indexes the statement's bound-type table, which must still hold the last binding when an execution carries no
+    # types (C16's storage rules: a table cleared between executions is an index panic on well-formed input; round 14, C20-B)
+    # ... "a conformant reply or an error return": a reply whose ERR / terminator is appended to a half-written row is neither
+    # (C13.err-on-packet-boundary; round 14, C20-C)
+    "C20": [("C08", ["C08.value-layouts"]), ("C10", ["C10.registry-ownership", "C10.fresh-on-prepare"]),
+            ("C16", ["C16.per-statement-storage", "C16.rebind-replaces"]), ("C13", ["C13.err-on-packet-boundary"])],
 }
 
 
